@@ -13,6 +13,7 @@ import Gzx.Proofs.DMMidstream
 import Gzx.Proofs.DMRoundTripGen
 import Gzx.Properties.C08
 import Gzx.Model.RS
+import Gzx.Proofs.DMCompose
 namespace Gzx.Properties.C02
 open Gzx Gzx.DMHighLevel
 
@@ -276,43 +277,71 @@ theorem dm_roundtrip_ascii_partial (T : Tables) (syms : List SymbolInfo) (la : L
 
 /-- `dm_symbol_roundtrip_partial`: text → `encodeHL` → reference symbol of C08 (reference ECC, interleaving,
     Annex-F placement, finder/clock framing; any of the 30 ECC-200 sizes whose capacity equals the number of
-    codewords) → low-level decoder model of C08 (version by dimensions, data-region extraction, codeword
-    reading, de-interleaving) → Reed-Solomon decoding of every block → `decodeText` = text.
-    Hypotheses: the oracle conditions of `dm_roundtrip_five_modes_partial`; `hRS`: the Reed-Solomon decoder
-    model (C04) returns each reference block (data ++ ECC) unchanged — i.e. the reference ECC words are code
-    words of the decoder's code (C04 proves `rs_decode_clean` for words with zero syndromes; that the
-    reference ECC of C08 has zero syndromes is the link not proved here).  That the model's codewords are
-    bytes is proved (`encodeHL_bytes`). -/
+    codewords, 144x144 with its 8+2 unequal blocks included) → `Decoder.Decode` model: version by dimensions,
+    data-region extraction, codeword reading, de-interleaving, Reed-Solomon decoding of every block (C04 model
+    decoder over GF(256)/0x12D), de-interlacing copy, `decodeText` — returns exactly the text.
+    The Reed-Solomon step is a THEOREM: every reference block `data_b ++ ecc_b` has zero syndromes
+    (C08 `blocks_are_rs_codewords` / `eccBlock_zero_syndromes`), so C04's `rs_decode_clean` returns it unchanged.
+    `_partial` only because of the hypotheses on the look-ahead ORACLE inherited from
+    `dm_roundtrip_five_modes_partial`: `LaNoEdifact`, `LaTailAscii`, `LaX12Tail`. -/
 theorem dm_symbol_roundtrip_partial (syms : List SymbolInfo) (la : LookAhead) (msg : List Nat) (cfg : Cfg)
     (cw : List Nat) (hNoE : LaNoEdifact la)
     (hTA : LaTailAscii la msg (initCtx msg cfg).total) (hXT : LaX12Tail la msg (initCtx msg cfg).total)
     (hb : ∀ x ∈ msg, x < 256) (h : encodeHL syms la msg cfg = .ok cw)
-    (p : DMRef.Sym × Nat) (hp : p ∈ DMRef.table7.zipIdx) (hn : cw.length = p.1.nData)
-    (hRS : ∀ b ∈ List.range p.1.blocks,
-      RS.decode GF.dataMatrix256 (DMRef.blockData p.1 cw b ++ DMRef.blockEcc p.1 cw b) p.1.blkErr
-        = .ok (DMRef.blockData p.1 cw b ++ DMRef.blockEcc p.1 cw b)) :
-    ∃ v grid raw blocks,
+    (p : DMRef.Sym × Nat) (hp : p ∈ DMRef.table7.zipIdx) (hn : cw.length = p.1.nData) :
+    (∃ v grid raw blocks,
       DMDec.newBitMatrixParser DMDec.versions ⟨p.1.cols, p.1.rows, (DMRef.symbolBits p.1 cw).flatten.toArray⟩
         = .ok (v, grid) ∧
       DMDec.readCodewords v grid = .ok raw ∧
       DMDec.getDataBlocks raw v = .ok blocks ∧
       (∀ nb ∈ blocks, RS.decode GF.dataMatrix256 nb.2 p.1.blkErr = .ok nb.2) ∧
       DMDec.resultBytes blocks = .ok cw ∧
-      decodeText refTables cw = .ok msg := by
+      decodeText refTables cw = .ok msg) ∧
+    DMDec.decodeMatrix refTables ⟨p.1.cols, p.1.rows, (DMRef.symbolBits p.1 cw).flatten.toArray⟩ = .ok msg := by
   have hcwb := encodeHL_bytes syms la msg cfg cw hNoE hTA hXT hb h
+  have hrt := roundtrip_gen syms la msg cfg cw hNoE hTA hXT hb h
+  have hs := Gzx.Properties.C08.zipIdx_mem_table7 p hp
   have hchain := Gzx.Properties.C08.decoder_inverts_reference_symbol p hp cw hn hcwb
   simp only at hchain
   obtain ⟨h1, h2, h3, h4⟩ := hchain
-  refine ⟨_, _, _, _, h1, h2, h3, ?_, h4, roundtrip_gen syms la msg cfg cw hNoE hTA hXT hb h⟩
-  intro nb hnb
-  simp only [List.mem_map] at hnb
-  obtain ⟨b, hbm, rfl⟩ := hnb
-  exact hRS b hbm
+  constructor
+  · refine ⟨_, _, _, _, h1, h2, h3, ?_, h4, hrt⟩
+    intro nb hnb
+    simp only [List.mem_map] at hnb
+    obtain ⟨b, hbm, rfl⟩ := hnb
+    exact DMProofs.block_clean p.1 hs cw hn hcwb b (List.mem_range.1 hbm)
+  · unfold DMDec.decodeMatrix
+    have := DMProofs.decodeMatrixBytes_tolerates p hp cw hn hcwb (DMRef.codewords p.1 cw)
+      (DMProofs.codewords_length p.1 cw hn) (DMProofs.codewords_bytes p.1 cw hcwb)
+      (fun b _ => by rw [DMProofs.hamming_self]; omega)
+    unfold DMRef.symbolBits
+    rw [this]
+    exact hrt
 
-/-- non-vacuity of `hRS`: for "A12" = [66, 142, 129] in the 10x10 symbol the reference block is
+/-- the Reed-Solomon step in isolation, for every row of Table 7, every byte vector of the symbol's capacity
+    and every block: C04's decoder model returns the reference block unchanged (was hypothesis `hRS`) -/
+theorem dm_reference_blocks_decode_clean (s : DMRef.Sym) (hs : s ∈ DMRef.table7) (d : List Nat)
+    (hd : d.length = s.nData) (hb : ∀ x ∈ d, x < 256) (b : Nat) (hbB : b < s.blocks) :
+    RS.decode GF.dataMatrix256 (DMRef.blockData s d b ++ DMRef.blockEcc s d b) s.blkErr
+      = .ok (DMRef.blockData s d b ++ DMRef.blockEcc s d b) :=
+  DMProofs.block_clean s hs d hd hb b hbB
+
+/-- non-vacuity: for "A12" = [66, 142, 129] in the 10x10 symbol the reference block is
     [66, 142, 129, 170, 115, 225, 118, 63] and the Reed-Solomon decoder model returns it unchanged -/
 example : RS.decode GF.dataMatrix256 [66, 142, 129, 170, 115, 225, 118, 63] 5
     = .ok [66, 142, 129, 170, 115, 225, 118, 63] := by decide +kernel
+example : DMRef.blockData (DMRef.table7.getD 0 default) [66, 142, 129] 0 ++
+    DMRef.blockEcc (DMRef.table7.getD 0 default) [66, 142, 129] 0 = [66, 142, 129, 170, 115, 225, 118, 63] := by
+  decide +kernel
+/-- the oracle hypotheses are satisfiable together with the symbol hypotheses: the all-ASCII oracle, "A12",
+    the one-row table {10x10: 3 data codewords} -/
+example : LaNoEdifact (fun _ _ _ => ASCII) ∧ LaTailAscii (fun _ _ _ => ASCII) [65, 49, 50] 3 ∧
+    LaX12Tail (fun _ _ _ => ASCII) [65, 49, 50] 3 :=
+by
+  refine ⟨?_, ?_, ?_⟩
+  · intro m p; show (ASCII : Nat) ≠ EDIFACT; decide
+  · intro p _; rfl
+  · intro p ch _ _ _; exact ⟨by show (ASCII : Nat) ≠ X12; decide, by show (ASCII : Nat) ≠ X12; decide⟩
 
 /-! ## termination -/
 
